@@ -70,10 +70,10 @@ def gen_tree(rng, depth=0, prefix="", budget=None):
         if r < 0.55:
             size = rng.choice([0, 1, 10, 10, 300, 70000])
             out.append({"path": rel, "kind": "file", "seed": rng.randrange(1 << 20), "size": size,
-                        "mode": rng.choice([0o644, 0o600, 0o755, 0o640, 0o700, 0o444]),
+                        "mode": rng.choice([0o644, 0o600, 0o755, 0o640, 0o700, 0o444, 0o664, 0o666, 0o775]),
                         "mtime": rng.choice([1000000000, 1234567890.5, 1500000000.123456, 946684800])})
         elif r < 0.8 and depth < 2:
-            out.append({"path": rel, "kind": "dir", "mode": rng.choice([0o755, 0o700, 0o750, 0o555])})
+            out.append({"path": rel, "kind": "dir", "mode": rng.choice([0o755, 0o700, 0o750, 0o555, 0o775, 0o777, 0o770, 0o1777])})
             out += gen_tree(rng, depth + 1, rel + "/", budget)
         else:
             how = rng.choice(["rel-in", "rel-in", "abs-in", "abs-out", "rel-out", "dangling"])
@@ -330,6 +330,7 @@ def c17_script(ctx, aid, oi, table, op):
     srcdir = os.path.join(base, "src")
     outside = os.path.join(base, "outside")
     oldcwd = os.getcwd()
+    oldmask = os.umask(0o022)  # the usual umask, whatever the checker was started with: receivers inherit it
     V = []
     nsent = 0
     try:
@@ -436,6 +437,7 @@ def c17_script(ctx, aid, oi, table, op):
                 break
     finally:
         os.chdir(oldcwd)
+        os.umask(oldmask)
         shutil.rmtree(base, ignore_errors=True)
     ctx.rec(aid, oi, "sub", ("rsync", nsent, V[:6]))
     return ("ok",)
